@@ -17,7 +17,7 @@
 """
 import collections, concurrent.futures as cf, json, os, re, subprocess, sys, threading, time
 
-try: import vlib
+try: import vlib, pathcover
 except ImportError: vlib = None          # `python3 c20.py cover ...` (the path cover runs in a process of its own: it is pure Python)
 
 FAM = "PulseTree"
@@ -153,14 +153,34 @@ def run(v, tier, seed):
         t2 = time.time()
         cmd = [pn, "replay", bf, rep, "9"] + ([tr, str(ntraces)] if ntraces else [])
         rc, out, err = vlib.run(cmd, timeout=3000)
-        if rc != 0: raise vlib.MachineryError("pn replay %s failed rc=%s: %s %s" % (tag, rc, out[-500:], err[-1500:]))
-        rows = vlib.read_ndjson(rep)
+        if rc in (66, 67) or (rc < 0 and rc != -999):
+            rows = [{"behaviour": "?", "violations": ["the process died (rc=%s) inside the PulseNode code while replaying the behaviours of %s: %s" % (rc, tag, err[-800:])]},
+                    {"summary": True, "behaviours": cs["behaviours"], "followed": 0, "drifted": 0, "violated": 1, "steps": 0, "events": 0, "callbacks": 0, "nested": 0, "cycles": 0, "state_comparisons": 0}]
+        elif rc != 0: raise vlib.MachineryError("pn replay %s failed rc=%s: %s %s" % (tag, rc, out[-500:], err[-1500:]))
+        else: rows = vlib.read_ndjson(rep)
         smp = [cs["sample"]]
         os.remove(bf)
         note = {"instance": tag, "N": N, "times": "0..%d+NEVER" % maxT, "nested_per_cycle": nested, "distinct": r.distinct, "generated": r.generated, "depth": r.depth,
                 "tlc_wall_s": round(r.wall, 1), "transitions_printed": ntr, "states_in_graph": cs["states"], "behaviours": cs["behaviours"], "cover_s": round(t2 - t1, 1), "replay_s": round(time.time() - t2, 1),
                 "taken": dict(taken)}
         return r, rows, smp, note, (tr if ntraces else None), ntr
+
+    def dump_and_replay():
+        """the framework's standard route on the smallest instance: RECORD = TRUE keeps the step record in the variable `last`,
+        TLC dumps the state graph, tools/pathcover.py covers every edge (static configuration Gen_dump_N2.cfg)"""
+        dot = W("n2.dot"); bf = W("beh_D2.ndjson"); rep = W("rep_D2.ndjson")
+        r = B.tlc("PulseImpl", "Gen_dump_N2.cfg", FAM, workers=2, timeout=3000, heap="3g", extra=NOGEN, dump=dot)
+        vlib.require_ok(r, "PulseImpl D2 (graph dump)")
+        beh, st = pathcover.behaviours(dot)
+        os.remove(dot)
+        if st["edges_covered"] != st["graph_edges"]: raise vlib.MachineryError("D2: path cover incomplete: %s" % st)
+        vlib.write_ndjson(bf, [{"id": i, "steps": b} for i, b in enumerate(beh)])
+        rc, out, err = vlib.run([pn, "replay", bf, rep, "9"], timeout=3000)
+        if rc != 0: raise vlib.MachineryError("pn replay D2 failed rc=%s: %s %s" % (rc, out[-500:], err[-1500:]))
+        os.remove(bf)
+        note = {"instance": "D2 (state-graph dump + tools/pathcover.py)", "N": 2, "times": "0..1+NEVER", "nested_per_cycle": 1, "distinct": r.distinct, "generated": r.generated, "depth": r.depth,
+                "tlc_wall_s": round(r.wall, 1), "graph_edges": st["graph_edges"], "behaviours": st["paths"]}
+        return r, vlib.read_ndjson(rep), [beh[len(beh) // 2][:6]], note, None, st["graph_edges"]
 
     # ---- 3: random histories, validated by TLC against PulseAbs -----------------------------------------------------------
     def trace_cfg(name, N, maxT, never):
@@ -186,7 +206,10 @@ def run(v, tier, seed):
         rep = W("rnd_%d.ndjson" % shard); tr = W("trace_%d.ndjson" % shard)
         t0 = time.time()
         rc, out, err = vlib.run([vlib.binpath(variant, "pn"), "random", str(seed * 131 + shard), str(histories), str(nops), str(N), str(maxT), "999", rep, tr, str(ntraced)], timeout=3000)
-        if rc in (66, 67): return [{"seed": seed * 131 + shard, "violations": ["memory error reported by the sanitizer: " + err[-1200:]]}, {"summary": True}], True, None, 0, tr, 0, 0, 0
+        if rc in (66, 67) or (rc < 0 and rc != -999):
+            # the library itself died under legal use of its public API (the harness is clean on the unchanged tree): no callback fires any more
+            what = "memory error reported by the sanitizer" if rc in (66, 67) else "the process was killed by signal %d inside the PulseNode code" % -rc
+            return [{"seed": seed * 131 + shard, "shard": shard, "args": [histories, nops, N, maxT], "violations": [what + " " + err[-1200:]]}, {"summary": True}], True, None, 0, tr, 0, 0, 0
         if rc != 0: raise vlib.MachineryError("pn random failed rc=%s: %s %s" % (rc, out[-500:], err[-1500:]))
         rows = vlib.read_ndjson(rep)
         t1 = time.time()
@@ -230,7 +253,8 @@ def run(v, tier, seed):
         rnd = [(s, 60000, 300, 6, 200, 120) for s in range(5)] + [(5, 3000, 400, 5, 60, 60), (6, 6000, 300, 6, 200, 0, "asan"), (7, 6000, 200, 5, 60, 0, "asan")]
 
     with cf.ThreadPoolExecutor(max_workers=24) as ex:
-        f_gen = [ex.submit(generate_and_replay, *g) for g in gens]
+        f_gen = [ex.submit(generate_and_replay, *g) for g in gens] + [ex.submit(dump_and_replay)]
+        gens = gens + [("D2", 2, 1)]
         f_vac = ex.submit(vacuity_f20)
         f_rnd = [ex.submit(random_histories, *r) for r in rnd]
         f_abs = ex.submit(abs_mc, 3, 1, 0 if quick else 1, 2)
@@ -306,7 +330,7 @@ def run(v, tier, seed):
             mc_notes.append({"instance": "MC " + tag, "distinct": r.distinct, "generated": r.generated, "depth": r.depth, "tlc_wall_s": round(r.wall, 1)})
 
     if tot["followed"] == 0 and not v.violations: raise vlib.MachineryError("no behaviour could be followed")
-    if tot["r_reentrant_cycles"] == 0: raise vlib.MachineryError("vacuity guard: no random cycle had a re-entrant callback")
+    if tot["r_reentrant_cycles"] == 0 and not v.violations: raise vlib.MachineryError("vacuity guard: no random cycle had a re-entrant callback")
     cov = {"states": tot["states"], "transitions": tot["transitions"],
            "traces_validated_against_impl": tot["followed"] + tot["traces_ok"],
            "transitions_printed_and_covered": tot["printed"], "behaviours_replayed": tot["behaviours"], "behaviours_followed_to_the_end": tot["followed"],
